@@ -253,8 +253,14 @@ def gen_blocks(rng, mode_, vector=False):
 def op_build_core(rng, mode_):
     vector = rng.random() < 0.3
     r1, r2, m, n, blocks, cplx = gen_blocks(rng, mode_, vector)
+    if r1 >= 2 and rng.random() < 0.4:
+        # targeted: real blocks ahead of the first complex one (the storage switches from real to complex on the way)
+        k0 = rng.randrange(1, r1)
+        for i in range(r1):
+            for j in range(r2):
+                blocks[i][j] = gen_entries(rng, (m, n), i >= k0, mode_)
     anyc = any(np.iscomplexobj(b) for row in blocks for b in row if not isinstance(b, int))
-    isc = (anyc and rng.random() < 0.6) or (rng.random() < 0.3)
+    isc = (anyc and rng.random() < 0.4) or (rng.random() < 0.3)
     arg = [row[0] for row in blocks] if vector else blocks
 
     def expect():
